@@ -352,12 +352,47 @@ def r02_7(chk, P):
     return n
 
 
+def r02_8(chk, P):
+    chk.rule('R02.8', 'the capacity of the decoder\'s channel buffers does not depend on the half-rate setting at initialisation: in every '
+             'function reachable from vorbis_synthesis_init, the value stored into vorbis_dsp_state.pcm_storage (the element count '
+             'the v->pcm[] buffers are allocated with) reads neither the half-rate flag nor a local derived from it.  The flag '
+             'lives in the info and vorbis_synthesis_halfrate may change it after vorbis_synthesis_init, while '
+             'vorbis_synthesis_blockin / _lapout / _restart address the buffers with the value current at their call '
+             '("in whatever order"): buffers sized for half rate are overrun by the first full-rate block')
+    import frames
+    roots = [P.key(P.need('vorbis_synthesis_init'))]
+    n = 0
+    for k in sorted(P.reachable(roots)):
+        F = P.fn.get(k)
+        if F is None:
+            continue
+        for e in F.nodes('assign'):
+            nd = F.ex[e]
+            l = F.ex[F.strip_casts(nd['c'][0])]
+            if not (l['k'] == 'member' and l.get('record') == 'vorbis_dsp_state' and l['field'] == 'pcm_storage'):
+                continue
+            bad = None
+            for q in F.walk(nd['c'][1]):
+                x = F.ex[q]
+                if x['k'] in ('ref', 'member', 'call') and frames._syntactic_hs(P, F, q):
+                    bad = q
+                    break
+            n += 1
+            chk.ob('R02.8', F.name, f'buffer-capacity-independent-of-half-rate@{F.loc(e)}', bad is None, F.where(e),
+                   f'`{F.s(e)}`: no half-rate term' if bad is None else
+                   f'`{F.s(e)}` depends on the half-rate flag as it stands now (`{F.s(bad)}`): a later vorbis_synthesis_halfrate(vi,0) makes '
+                   'blockin write full-rate blocks into buffers of half the size')
+    return n
+
+
 # ---------------------------------------------------------------------------------------------------------
 def run(chk, P):
     r02_6(chk, P)
     chk.floor('R02.6', 1)
     r02_7(chk, P)
     chk.floor('R02.7', 2)
+    r02_8(chk, P)
+    chk.floor('R02.8', 1)
     D = k4dec.decode_driver(P)
     r02_1(chk, P, D)
     chk.floor('R02.1', 45)
